@@ -269,6 +269,7 @@ func runC24(c *Ctx) {
 	}
 
 	runC24AtomicCallee(c)
+	runC24InForce(c)
 
 	// roundtrip
 	checkLit := func(fnName, typ string, exempt map[string]bool) {
